@@ -55,6 +55,9 @@ func (r *lineRewriter) flush(f func(op, body string) (string, string)) {
 		}
 		body := strings.TrimPrefix(ln, r.g.Engine+" ")
 		class, nb := f(strings.Fields(body)[0], body)
+		if nb == "" {
+			continue // dropped by the engine's generator
+		}
 		r.emit(class, nb)
 	}
 }
@@ -65,6 +68,20 @@ func (r *lineRewriter) flush(f func(op, body string) (string, string)) {
 // transactions its own mempool accepted, so a transaction purged as a conflict is never delivered
 // again - the wallet's volatile pending-id set still holds its id, a restarted wallet's does not.
 func prunePool(l *ledGen) {
+	defer func() {
+		// remember the coins the dropped transactions spend (see singleSpender)
+		live := map[string]bool{}
+		for _, p := range l.pool {
+			live[p.name] = true
+		}
+		for name, ins := range delivered {
+			if !live[name] {
+				for _, c := range ins {
+					burned[c] = true
+				}
+			}
+		}
+	}()
 	for changed := true; changed; {
 		changed = false
 		u := map[string]gCoin{}
@@ -81,4 +98,60 @@ func prunePool(l *ledGen) {
 		}
 		l.pool = keep
 	}
+}
+
+// Coins spent by an unconfirmed transaction that was delivered to the wallet and later conflicted
+// out. The wallet may still hold that transaction as pending (it lags behind the node); a second
+// pending spender of the same coin would run into the store's per-outpoint marker being deleted as a
+// whole when one of the spenders is purged (deleteUnminedInputs) - a known finding (notes/C06.md, F1)
+// whose witness lives in the corpus; the generated histories keep one delivered spender per coin.
+var burned = map[string]bool{}
+var delivered = map[string][]string{}
+
+func resetSpenders() {
+	burned, delivered = map[string]bool{}, map[string][]string{}
+}
+
+// singleSpender decides whether the `recvtx T` line just produced by ledGen may be emitted: T's inputs
+// (taken from its `tx` line) must not be spent by another delivered transaction, live or conflicted.
+func singleSpender(l *ledGen, name string) bool {
+	t := l.defined[name]
+	if t == nil {
+		return true
+	}
+	if _, dup := delivered[name]; dup {
+		return true // a duplicate delivery of the same transaction
+	}
+	var keys []string
+	for _, c := range t.ins {
+		keys = append(keys, c.key())
+	}
+	for _, k := range keys {
+		if burned[k] {
+			return false
+		}
+		for other, ins := range delivered {
+			if other == name {
+				continue
+			}
+			for _, o := range ins {
+				if o == k {
+					return false
+				}
+			}
+		}
+	}
+	delivered[name] = keys
+	return true
+}
+
+// dropFromPool removes a transaction whose delivery was suppressed.
+func dropFromPool(l *ledGen, name string) {
+	var keep []*gTx
+	for _, p := range l.pool {
+		if p.name != name {
+			keep = append(keep, p)
+		}
+	}
+	l.pool = keep
 }
